@@ -96,14 +96,18 @@ def torques(obs, chain, emit, load_fn=None, load_calls=None, dead_tol=True):
         for k in range(nk):
             calls = byk.get(k, [])
             checked += 1
-            if len(calls) != 1:
-                emit('load-call-count', 'load function called exactly once per instant', k,
-                     {'calls': len(calls)})
+            if not calls:
+                emit('load-not-evaluated', 'the load function is evaluated at every instant', k, {})
                 continue
-            t, th, w = calls[0]
-            if not (_close(si.q_si(t), obs['time'][k], 0.0)
-                    and _close(si.q_si(th), obs['el'][n - 1]['angular position'][k], 0.0)
-                    and _close(si.q_si(w), obs['el'][n - 1]['angular speed'][k], 0.0)):
+            # (how often the function is consulted is the implementation's business: one consultation with
+            #  this instant's recorded state must exist)
+            def matches(c):
+                t, th, w = c
+                return (_close(si.q_si(t), obs['time'][k], 0.0)
+                        and _close(si.q_si(th), obs['el'][n - 1]['angular position'][k], 0.0)
+                        and _close(si.q_si(w), obs['el'][n - 1]['angular speed'][k], 0.0))
+            t, th, w = calls[-1]
+            if not any(matches(c) for c in calls):
                 emit('load-args', 'load function sees this instant\'s time, recorded position and speed', k,
                      {'t_arg': si.q_si(t), 't_rec': obs['time'][k],
                       'theta_arg': si.q_si(th), 'theta_rec': obs['el'][n - 1]['angular position'][k],
